@@ -184,6 +184,21 @@ func genSched(r *simrt.Rand) SchedSpec {
 	s.StallBudget = pick(r, 10, 40, 150)
 	s.VictimSalt = r.Uint64()
 	s.VictimMod = pick(r, uint64(0), 8, 16, 32)
+	// slow threads: in about half of the runs one class of tasks - the handlers of one RPC
+	// method, or the node's periodic tasks - dawdles at the scheduling points it reaches
+	switch r.Intn(8) {
+	case 0:
+		s.SlowMethod = "@periodic"
+	case 1, 2, 3:
+		s.SlowMethod = pick(r, "FinishJoin", "FinishLeave", "RequestToJoin", "RequestToLeave", "Notify", "Import", "GetSuccessors")
+	}
+	if s.SlowMethod != "" {
+		s.SlowProb = pick(r, 0.1, 0.3)
+		s.SlowMax = pick(r, 50*time.Millisecond, 300*time.Millisecond, 2*time.Second)
+		if s.StallBudget < 60 {
+			s.StallBudget = 60
+		}
+	}
 	return s
 }
 
@@ -406,6 +421,7 @@ func genC07(p *Plan, r *simrt.Rand, seed uint64, hashes []uint64) {
 	p.Stab, p.Fix, p.Pred = 2*time.Second, 5*time.Second, 7*time.Second
 	p.Net = simnet.Config{MinLatency: time.Millisecond, MaxLatency: 10 * time.Millisecond}
 	p.Sched.StallProb, p.Sched.VictimMod = 0, 0
+	p.Sched.SlowMethod, p.Sched.SlowProb = "", 0
 	p.Triggers = nil
 	p.Nodes[0].Ops = []SlotOp{{Kind: "create"}}
 	for i := 1; i < n; i++ {
